@@ -19,8 +19,8 @@
 
 using namespace pbt;
 
-static const size_t PAGE = 4096;
-static const size_t HDR = 32;
+static size_t PAGE = 4096; // both are re-read from the allocator in run(): the geometry is not part of the property
+static size_t HDR = 32;
 static const int MAXT = 3;
 
 struct Blk {
@@ -78,7 +78,7 @@ static void page_point() {
 }
 
 extern "C" int __wrap_posix_memalign(void **out, size_t align, size_t size) {
-    bool is_page = W && align == PAGE && size == PAGE;
+    bool is_page = W && align == size && align >= 1024 && (align & (align - 1)) == 0;
     if (is_page) page_point(); // "nothing free to use, allocate a page": inside the bin's critical section
     int rc = __real_posix_memalign(out, align, size);
     if (is_page && rc == 0) {
@@ -452,8 +452,12 @@ static void run(const Case &c, Ctx &ctx) {
     w.release_own_at_end = c.c(1) % 2 == 1;
     w.sba = aws_small_block_allocator_new(galloc::full(), true);
     PBT_CHECK(w.sba != nullptr);
-    PBT_CHECK(aws_small_block_allocator_page_size(w.sba) == PAGE && aws_small_block_allocator_page_size_available(w.sba) == PAGE - HDR,
-              "page geometry differs from what this harness observes");
+    {
+        size_t ps = aws_small_block_allocator_page_size(w.sba), av = aws_small_block_allocator_page_size_available(w.sba);
+        PBT_CHECK(ps >= 1024 && (ps & (ps - 1)) == 0 && av < ps && av >= ps / 2, "page geometry %zu / %zu available cannot be observed by this harness", ps, av);
+        PAGE = ps;
+        HDR = ps - av;
+    }
     size_t parent_baseline = galloc::live_blocks();
 
     ds::Config cfg = dsg::to_config(dsg::find_schedule(c), 60000);
